@@ -219,6 +219,18 @@ func TestC18(t *testing.T) {
 					}
 				}
 			}
+			if format == "stl" {
+				// the GSI block counts are informative: a file announcing fewer TTI blocks than it holds is still read to its end
+				for _, doc := range append([][]byte(nil), docs...) {
+					if len(doc) >= 1024+128*3 {
+						v := append([]byte(nil), doc...)
+						copy(v[238:243], "00001")
+						copy(v[243:248], "00001")
+						docs = append(docs, v)
+						break
+					}
+				}
+			}
 			for _, doc := range docs {
 				if _, err := readFormat(format, bytes.NewReader(doc), readOpts{}); err != nil {
 					continue
